@@ -76,6 +76,9 @@ int main( int argc, char ** argv ) {
             } else {
                 s = sf->AppendWorkingFile( a );
             }
+            if( sf->Error().severity() < SEVERITY_NULL ) {
+                sf->Error().PrintContents( std::cout );
+            }
             fprintf( g_out, "sev %d esev %d errs %d warns %d\n", ( int ) s, ( int ) sf->Error().severity(), sf->ErrorCount(), sf->WarningCount() );
         } else if( cmd == "write" || cmd == "writews" ) {
             Severity s;
